@@ -117,6 +117,11 @@ func famCodec6(w *World) {
 			if scnChance(1, 3) {
 				spec.MaxFrame = 9000 + scn(56000) // above the largest possible header block (255 headers)
 			}
+			if scnChance(1, 3) {
+				// reserved bits of the flags byte set on every fragment: to be ignored
+				spec.ReservedFlags = []byte{0x02, 0x80, 0xfe}[scn(3)]
+				w.probe("C06.reserved-flag-bits-set")
+			}
 			t0 := time.Now()
 			res := rc.Call(spec, 10*time.Second)
 			w.probe("ops.done")
@@ -184,6 +189,7 @@ func famCodec6(w *World) {
 			hdrs     []wire.KV
 			maxFrame int
 			csum     byte
+			resFlags byte
 		}
 		plans := map[string]*plan{}
 		var seen []*wire.Frame
@@ -227,7 +233,7 @@ func famCodec6(w *World) {
 					c.Send(wire.EncError(f.ID, byte(p.errCode), first[f.ID].Span, p.msg))
 					continue
 				}
-				for _, b := range wire.EncCall(wire.CallSpec{Type: wire.TCallRes, ID: f.ID, ResCode: p.code, Span: first[f.ID].Span, Headers: p.hdrs, CsumType: p.csum, MaxFrame: p.maxFrame, Args: [3][]byte{nil, p.a2, p.a3}}) {
+				for _, b := range wire.EncCall(wire.CallSpec{Type: wire.TCallRes, ID: f.ID, ResCode: p.code, Span: first[f.ID].Span, Headers: p.hdrs, CsumType: p.csum, MaxFrame: p.maxFrame, ReservedFlags: p.resFlags, Args: [3][]byte{nil, p.a2, p.a3}}) {
 					c.Send(b)
 				}
 			}
@@ -247,6 +253,9 @@ func famCodec6(w *World) {
 			p.a3 = payload(method, 13, drawSize(150000))
 			if scnChance(1, 3) {
 				p.maxFrame = 200 + scn(60000)
+			}
+			if scnChance(1, 3) {
+				p.resFlags = []byte{0x02, 0x80, 0xfe}[scn(3)]
 			}
 			plans[method] = p
 			timeout := time.Duration(1000+scn(100000)) * time.Millisecond
